@@ -129,4 +129,6 @@ class XMLReader(TextToModel):
                     print("This XML contains non supported elements", file=sys.stderr)
         else:
             raise RuntimeError("Something is wrong on the xml")
+        if not relation.children:
+            raise FlamaException(f"Relation without features: {element.attrib.get('name')}")
         return relation
